@@ -1,7 +1,7 @@
 SPECIFICATION Spec
 CONSTANTS
-  MaxEdits = 3
-  Deep = FALSE
+  MaxEdits = 1
+  Deep = TRUE
   Sample = TRUE
 INVARIANT CreateIsExact
 CHECK_DEADLOCK FALSE
